@@ -1,5 +1,6 @@
-From Capy Require Import Common.Util Model.IndexCheck Spec.IndexCheckSpec.
+From Capy Require Import Common.Util Model.IndexCheck Model.IndexCheckFixed Spec.IndexCheckSpec.
 Require Extraction.
 Require Import ExtrOcamlBasic.
 Extraction Language OCaml.
-Separate Extraction exec lit_index_rejected idx_ty_accepted assign_discrims known_class lookup discrims_overflow walk.
+Separate Extraction exec execf lit_index_rejected idx_ty_accepted assign_discrims known_class known_class_f
+  lookup discrims_overflow walk.
